@@ -35,17 +35,38 @@ def run (ctx):
   sch = repo.cls(RC, 'Scheduler'); clt = repo.cls(RC, 'CallLaterTask'); hub = repo.cls(RC, 'SelectHub')
   # ---- D1 ----------------------------------------------------------------------------------------
   cl = q.find_method(repo, sch, 'callLater', 'C07'); ctx.analysed(cl)
+  # creation of the task: the constructor call and the store to the attribute are inside the lock, and under a `is None` test of a
+  # value that was read from the attribute *inside* the lock (a lock-free first look outside is harmless: seeing None only sends
+  # the caller into the locked path, and the attribute is never reset)
   n_lock = 0
+  gcl = q.cfg_of(cl)
+  crit = []
   for n in ast.walk(cl.node):
-    if isinstance(n, ast.Attribute) and n.attr == '_callLaterTask' and norm(n.value) == 'self':
-      cn = None
-      # only the test and the creation must be locked; the final use reads a value that is never reset
-      parent_is_call = any(isinstance(c, ast.Call) and c.func is not None and any(x is n for x in ast.walk(c.func)) and call_name(c) == 'callLater' for c in ast.walk(cl.node))
-      if parent_is_call: continue
-      n_lock += 1
-      inside = _in_with(cl.node, n, 'self._lock')
-      ctx.ob('R-LOCK', cl, "test-and-create of the call-later task (line %s, %s) is inside the scheduler lock" % (n.lineno, type(n.ctx).__name__), inside, "within `with self._lock`" if inside else
-             "`self._callLaterTask` is tested/created outside `with self._lock`: two threads can each create a CallLaterTask and one thread's functions are handed to a task that was overwritten", (mod, n), 'D1')
+    if isinstance(n, ast.Attribute) and n.attr == '_callLaterTask' and norm(n.value) == 'self' and isinstance(n.ctx, ast.Store): crit.append((n, 'store'))
+    if isinstance(n, ast.Call) and call_name(n) == 'CallLaterTask': crit.append((n, 'creation'))
+  for n, what in crit:
+    n_lock += 1
+    inside = _in_with(cl.node, n, 'self._lock')
+    sn = q.enclosing_stmt_node(gcl, n)
+    rechecked = False
+    if inside and sn is not None:
+      for t_, pol_, b_ in gcl.guards(sn):
+        if not (isinstance(t_, ast.Compare) and len(t_.ops) == 1 and isinstance(t_.ops[0], (ast.Is, ast.IsNot)) and isinstance(t_.comparators[0], ast.Constant) and t_.comparators[0].value is None): continue
+        if (isinstance(t_.ops[0], ast.Is)) != bool(pol_): continue
+        if not _in_with(cl.node, t_, 'self._lock'): continue
+        if norm(t_.left) == 'self._callLaterTask': rechecked = True
+        elif isinstance(t_.left, ast.Name):
+          cn_ = [x for x in gcl.nodes if x.kind == 'cond' and x.ast is t_]
+          pv = q.provenance(gcl, cn_[0], t_.left.id) if cn_ else []
+          if pv and all(kind == 'assign' and val is not None and norm(val) == 'self._callLaterTask' and _in_with(cl.node, val, 'self._lock') for d_, kind, val in pv): rechecked = True
+    good = inside and rechecked
+    ctx.ob('R-LOCK', cl, "%s of the call-later task (line %s) happens under the scheduler lock, after a None test made under the lock" % (what, n.lineno), good,
+           "within `with self._lock`, re-checked there" if good else
+           ("`%s` is outside `with self._lock`" % norm(n)[:40] if not inside else "inside the lock, but the `is None` test that leads here looked at a value read before the lock was taken") +
+           ": two threads can each create a CallLaterTask and one thread's functions are handed to a task that was overwritten", (mod, n), 'D1')
+  resets = [st_ for c_ in mod.classes.values() for f_ in c_.methods.values() if f_.name != '__init__' for t_, v_, st_, k_ in q.stores_in(f_.node)
+            if isinstance(t_, ast.Attribute) and t_.attr == '_callLaterTask' and isinstance(v_, ast.Constant) and v_.value is None]
+  ctx.ob('R-OWN', sch, "the call-later task, once created, is never reset", not resets, "no store of None outside __init__" if not resets else "`%s`" % norm(resets[0]), sch, 'D1')
   ctx.floor('call-later task accesses under lock', n_lock, 2)
   g = q.cfg_of(cl)
   mk = g.nodes_with_call(lambda c: call_name(c) == 'CallLaterTask'); st = g.nodes_with_call(lambda c: call_name(c) == 'start')
@@ -62,7 +83,7 @@ def run (ctx):
   # ---- D2 ----------------------------------------------------------------------------------------
   tcl = q.find_method(repo, clt, 'callLater', 'C07'); trun = q.find_method(repo, clt, 'run', 'C07'); ctx.analysed(tcl); ctx.analysed(trun)
   g = q.cfg_of(tcl)
-  app = g.nodes_with_call(lambda c: call_name(c) in ('append', 'appendleft', 'insert', 'extend') and norm(c.func.value) == 'self._calls')
+  app = g.nodes_with_call(lambda c: call_name(c) in ('append', 'appendleft', 'insert', 'extend') and isinstance(c.func, ast.Attribute) and q.alias_of(tcl.node, c.func.value, 'self._calls'))
   png = g.nodes_with_call(lambda c: call_name(c) == 'ping')
   ctx.floor('call-later publish/signal sites', len(app) + len(png), 2)
   if app and png:
@@ -93,7 +114,7 @@ def run (ctx):
   ctx.floor('pinger write sites', n_ping, 2)
   g = q.cfg_of(trun)
   pong = g.nodes_with_call(lambda c: call_name(c) == 'pongAll')
-  pops = g.nodes_with_call(lambda c: call_name(c) in ('popleft', 'pop') and norm(c.func.value) == 'self._calls')
+  pops = g.nodes_with_call(lambda c: call_name(c) in ('popleft', 'pop') and isinstance(c.func, ast.Attribute) and q.alias_of(trun.node, c.func.value, 'self._calls'))
   ylds = [n for n in g.nodes if n.ast is not None and any(isinstance(x, ast.Yield) for x in walk_no_nested(n.ast) if True) and any(isinstance(x, ast.Call) and call_name(x) == 'Select' for x in ast.walk(n.ast))]
   ctx.floor('call-later consumer sites (wait, pong, pop)', len(pong) + len(pops) + len(ylds), 3)
   if pong and pops and ylds:
@@ -214,8 +235,22 @@ def run (ctx):
       ctx.ob('R-OWN', sy, "each thread gets a synchroniser of its own", True, "origins: %s" % sorted(set(v for k_, v in verdicts)), sy, 'D4')
     else:
       ctx.undecided('R-OWN', sy, "each thread gets a synchroniser of its own", "origin of the returned object not recognised (%s)" % verdicts[:3], sy, 'D4')
-  acq = sorted(norm(c.func.value) for c in calls_in(si.node) if call_name(c) == 'acquire')
-  ctx.ob('R-EFFECT', si, "both handshake locks are held from construction", acq == ['self.inlock', 'self.outlock'], "acquired: %s" % acq, si, 'D4')
+  gsi = q.cfg_of(si)
+  held = {}
+  for attr in ('inlock', 'outlock'):
+    ok_ = False
+    # acquired through the attribute ...
+    if any(call_name(c) == 'acquire' and norm(c.func.value) == 'self.' + attr for c in calls_in(si.node)): ok_ = True
+    # ... or the object is acquired first and stored then (every origin of the stored name)
+    for t, v, st, k in q.stores_in(si.node):
+      if isinstance(t, ast.Attribute) and t.attr == attr and norm(t.value) == 'self' and isinstance(v, ast.Name):
+        sn = q.enclosing_stmt_node(gsi, st)
+        IN, defn = q.reaching_defs(gsi, v.id)
+        ds = [d for d in (IN[sn] if sn is not None else []) if d is not gsi.entry]
+        acqs = [n for n in gsi.nodes if any(call_name(c) == 'acquire' and norm(c.func.value) == v.id for c in q.node_calls(n))]
+        if ds and all(any(gsi.dominates(d, a_) and gsi.dominates(a_, sn) for a_ in acqs) for d in ds): ok_ = True
+    held[attr] = ok_
+  ctx.ob('R-EFFECT', si, "both handshake locks are held from construction", all(held.values()), "inlock and outlock acquired before anyone can see them" if all(held.values()) else "not acquired in the constructor: %s" % sorted(k_ for k_, v_ in held.items() if not v_), si, 'D4')
   g = q.cfg_of(srn)
   y = [n for n in g.nodes if n.ast is not None and any(isinstance(x, ast.Yield) for x in ast.walk(n.ast))]
   rel = g.nodes_with_call(lambda c: call_name(c) == 'release' and norm(c.func.value) == 'self.inlock')
